@@ -371,6 +371,8 @@ package emitter
 
 //@ pred ChunkObjsAlloc(c *chunk) = (c.branchBehavior == nil || allocated(c.branchBehavior))
 //@   && (typeis(c.branchBehavior, leafExpressionBranch) ==> allocated(as(c.branchBehavior, leafExpressionBranch).truthyDest))
+//@   && (typeis(c.branchBehavior, switchBranch) ==> ((as(c.branchBehavior, switchBranch).defaultCase == nil || allocated(as(c.branchBehavior, switchBranch).defaultCase))
+//@         && (forall q int :: {as(c.branchBehavior, switchBranch).cases[q]} (0 <= q && q < len(as(c.branchBehavior, switchBranch).cases)) ==> allocated(as(c.branchBehavior, switchBranch).cases[q]))))
 
 // what the work list needs to know about a chunk: ids and destinations in range, statements well-formed, branch well-formed
 //@ pred PendingOK(c *chunk, cc int) = c != nil && 0 <= c.id && c.id <= cc && IdOK(c.returnID, cc + 1) && StmtsWF(c.statements) && ChunkObjsAlloc(c)
@@ -545,4 +547,31 @@ package emitter
 //@     invariant [C03,C04:switch-inv] forall k int :: {branchCases[k]} (0 <= k && k < len(branchCases)) ==> (branchCases[k] != nil && allocated(branchCases[k]) && 0 <= branchCases[k].destChunkID && branchCases[k].destChunkID <= *chunkCounter)
 //@     invariant [C03,C04:switch-inv] branchBehavior.defaultCase != nil ==> (allocated(branchBehavior.defaultCase) && 0 <= branchBehavior.defaultCase.destChunkID && branchBehavior.defaultCase.destChunkID <= *chunkCounter)
 //@     decreases j - i
+//@ end
+
+// ---- the work list (C01, C04, C05, C18) ----
+
+//@ pred IsPlainStmt(s ast.Statement) = (typeis(s, ast.CommandStatement) && as(s, ast.CommandStatement).Name != nil) || (typeis(s, ast.LabelStatement) && as(s, ast.LabelStatement).Name != nil)
+
+// a finalised chunk: only commands and labels left, destinations in range, branch behaviour well-formed
+//@ pred FinalOK(c *chunk, cc int) = c != nil && PlainStmts(c) && IdOK(c.returnID, cc + 1) && ChunkObjsAlloc(c)
+//@   && (c.branchBehavior != nil ==> (BrWF(c.branchBehavior) && BranchDestsOK(c.branchBehavior, cc + 1)))
+
+//@ func (e *Emitter) emitScriptStatement
+//@   requires scriptStmt != nil && scriptStmt.Name != nil && scriptStmt.Body != nil && StmtsWF(scriptStmt.Body.Statements)
+//@   loop 1
+//@     use pigeonhole(finalChunks)
+//@     invariant [C04,C05:wl-count] chunkCounter >= 0 && len(finalChunks) + len(remainingChunks) == chunkCounter + 1 && len(finalChunks) >= 0
+//@     invariant [C04,C05:wl-pending] forall j int :: {remainingChunks[j]} (0 <= j && j < len(remainingChunks)) ==> (PendingOK(remainingChunks[j], chunkCounter) && fresh(remainingChunks[j]) && !indom(finalChunks, remainingChunks[j].id))
+//@     invariant [C04,C05:wl-distinct] forall j int, j2 int :: {remainingChunks[j], remainingChunks[j2]} (0 <= j && j < j2 && j2 < len(remainingChunks)) ==> remainingChunks[j].id != remainingChunks[j2].id
+//@     invariant [C01,C04,C05:wl-final] forall k int :: {indom(finalChunks, k)} indom(finalChunks, k) ==> (0 <= k && k <= chunkCounter && fresh(finalChunks[k]) && finalChunks[k].id == k && FinalOK(finalChunks[k], chunkCounter))
+//@     invariant [C01,C03:wl-break] forall s ast.Statement :: {indom(breakStatementReturnChunks, s)} indom(breakStatementReturnChunks, s) ==> IdOK(breakStatementReturnChunks[s], chunkCounter + 1)
+//@     invariant [C01:wl-continue] forall s ast.Statement :: {indom(breakStatementOriginChunks, s)} indom(breakStatementOriginChunks, s) ==> (0 <= breakStatementOriginChunks[s] && breakStatementOriginChunks[s] <= chunkCounter)
+//@     invariant [C04:wl-maps] finalChunks != nil && breakStatementReturnChunks != nil && breakStatementOriginChunks != nil
+//@   loop 2
+//@     modifies nothing
+//@     invariant [C01,C10:scan] i == $i && !shouldContinue && $i <= len(curChunk.statements) && curChunk == outer(remainingChunks)[0]
+//@     invariant [C01,C10:scan] forall k int :: {curChunk.statements[k]} (0 <= k && k < i) ==> IsPlainStmt(curChunk.statements[k])
+//@     invariant [C01:scan-frame] chunkCounter == outer(chunkCounter) && remainingChunks == outer(remainingChunks)[1:] && finalChunks == outer(finalChunks)
+//@        && breakStatementReturnChunks == outer(breakStatementReturnChunks) && breakStatementOriginChunks == outer(breakStatementOriginChunks)
 //@ end
